@@ -8,7 +8,7 @@ theorems plus one law of the flat spec):
 * `get_after_set_slice`   the same law for the chunked `ByteVec`: after a successful `set_slice(s, e, v)`,
                           `get_byte(i)` is `v`'s byte `i - s` for `s ≤ i < e` and the old `get_byte(i)` otherwise —
                           whatever the chunk layout (aligned fast path, splitting path, back-fill past the end);
-* `get_after_set_word`    ditto for `set_word` / MSTORE;
+* `get_after_set_word`, `get_after_set_byte`  ditto for `set_word` / MSTORE and `set_byte` / MSTORE8;
 * `slice_after_set_slice` reading back exactly the written range returns the written bytes;
 * `get_after_append`     `append` keeps every existing byte and places the new ones right after the old end;
 * `length_after_set_slice` the size after a successful write is `max size e` (what MSIZE is computed from).
@@ -108,6 +108,19 @@ theorem get_after_append (hO : Lawful O) (bv : BVec C) (c : C) (h : WF O bv) (i 
   rw [refines_get_byte O hO _ i hwf', refines_get_byte O hO bv i h, hfl, refines_length O hO bv h]
   simp only [Flat.append, Flat.get, List.getD_eq_getElem?_getD, List.getElem?_append]
   split <;> rfl
+
+/-- **get_after_set_byte.** MSTORE8-style one-byte write, then any one-byte read (also past the old end: the gap is zero) -/
+theorem get_after_set_byte (hO : Lawful O) (bv bv' : BVec C) (off : Nat) (v : C) (h : WF O bv) (hv : O.len v = 1)
+    (hok : setByte O bv off v = .ok bv') (i : Nat) :
+    getByte O bv' i = if i = off then (O.bytes v).getD 0 Byte.zero else getByte O bv i := by
+  obtain ⟨bv'', hok', hwf', hfl⟩ := (refines_set_byte O hO bv off v h).1 hv
+  rw [hok] at hok'
+  cases hok'
+  rw [refines_get_byte O hO bv' i hwf', refines_get_byte O hO bv i h, hfl, flat_get_write, hO.bytes_len v, hv]
+  by_cases hi : i = off
+  · subst hi; simp
+  · have : ¬ (off ≤ i ∧ i < off + 1) := by omega
+    rw [if_neg this, if_neg hi]
 
 /-- **get_after_set_word.** MSTORE-style 32-byte write, then any one-byte read -/
 theorem get_after_set_word (hO : Lawful O) (bv bv' : BVec C) (off : Nat) (w : C) (h : WF O bv) (hw : O.len w = 32)
